@@ -316,6 +316,9 @@ func stubParseFloat(e *Engine, fn *ssa.Function, a []Val) Val {
 	if v == nil {
 		v = e.internalVar("parsefloat", 64)
 		e.path.pfMemo[key.String()] = v
+		// contract of strconv.ParseFloat: a result returned without error is finite
+		expo := e.tf.Bin(OAnd, e.tf.Bin(OLShr, v, e.K(64, 52)), e.K(64, 0x7ff))
+		e.assume(e.tf.Not(e.tf.Eq(expo, e.K(64, 0x7ff))))
 	}
 	if cls == 2 || big {
 		// not decided by the syntax model: unknown outcome, but the same for the same text
